@@ -14,9 +14,8 @@ const PARAMETERS: &[Parameter] = &[
 
 #[allow(clippy::cast_possible_wrap)]
 fn find(value: Value, pattern: Value, from: Value) -> Resolved {
-    // TODO consider removal options
-    #[allow(clippy::cast_sign_loss, clippy::cast_possible_truncation)]
-    let from = from.try_integer()? as usize;
+    // A negative offset starts the search at the beginning.
+    let from = usize::try_from(from.try_integer()?).unwrap_or(0);
 
     Ok(FindFn::find(value, pattern, from)?
         .map_or(Value::Null, |value| Value::Integer(value as i64)))
@@ -104,6 +103,10 @@ struct FindFn {
 
 impl FindFn {
     fn find_regex_in_str(value: &str, regex: &ValueRegex, offset: usize) -> Option<usize> {
+        // `find_at` panics when the offset lies beyond the end of the haystack.
+        if offset > value.len() {
+            return None;
+        }
         regex.find_at(value, offset).map(|found| found.start())
     }
 
